@@ -215,10 +215,16 @@ def gen_batch(n, opts, tag=""):
                 u.planted = None
                 if rng.random() < opts.get("plant_p", 0.6):
                     kinds = [k for k in opts["plant"] if (k == "twinunused") == bool(getattr(u, "shadow", False))] or opts["plant"]
-                    kind = rng.choice(kinds)
-                    note = G.plant(rng, u, kind)
-                    if note:
-                        u.planted = (kind, note)
+                    # the rarer shapes first: a kind that does not apply to this unit falls through to the next
+                    order = list(kinds)
+                    rng.shuffle(order)
+                    if rng.random() < 0.5:
+                        order.sort(key=lambda k: k in ("missing", "dup", "unused"))
+                    for kind in order:
+                        note = G.plant(rng, u, kind)
+                        if note:
+                            u.planted = (kind, note)
+                            break
     if opts.get("adversarial") and not opts.get("plant"):
         from . import e2e_names
         for p in progs:
